@@ -52,6 +52,7 @@ enum Ev {
 fn hw_watch(m: &mut crate::emu6502::Machine, marks: &BTreeMap<u16, String>) {
     m.watch.push((0x00, 0x80));
     m.watch.push((0x0280, 0x0281));
+    m.watch.push((0xff, 0x102)); // the boundary register HW4
     m.pc_marks = marks.keys().cloned().collect();
     m.watch_ops = vec![0x8a, 0xaa, 0x98, 0xa8]; // TXA TAX TYA TAY
     m.max_events = 20_000;
@@ -103,6 +104,11 @@ fn judge_trace(kind: &str, idx: u64, p: &Program, tag: &str) -> CaseResult {
             }
         };
         let marks = marker_addrs(&built);
+        if built.layout.zp_end > 0xf0 {
+            // variables would reach the watched boundary addresses
+            res.class = "too many variables for the watched address ranges (not judged)".into();
+            return res;
+        }
         for k in 0..4u64 {
             let input = gen_input(p, tag, idx, k);
             let (exp_state, trace, steps) = match reference(p, &input, 20_000) {
@@ -119,6 +125,7 @@ fn judge_trace(kind: &str, idx: u64, p: &Program, tag: &str) -> CaseResult {
             let mut want: Vec<Ev> = Vec::new();
             let mut sleeps: Vec<(usize, i32)> = Vec::new(); // (index in `want` of the marker before the csleep, n)
             let mut last_marker = false;
+            let mut last_sleep = false;
             for t in &trace {
                 let mut marker = false;
                 match t {
@@ -140,6 +147,15 @@ fn judge_trace(kind: &str, idx: u64, p: &Program, tag: &str) -> CaseResult {
                     TraceEv::CSleep(n) => {
                         if last_marker {
                             sleeps.push((want.len() - 1, *n));
+                            last_sleep = true;
+                            last_marker = false;
+                            continue;
+                        } else if last_sleep {
+                            // several csleep statements in a row between the same two markers
+                            if let Some(l) = sleeps.last_mut() {
+                                l.1 += *n;
+                            }
+                            continue;
                         }
                     }
                     TraceEv::Xfer(op) => {
@@ -155,6 +171,7 @@ fn judge_trace(kind: &str, idx: u64, p: &Program, tag: &str) -> CaseResult {
                     TraceEv::Enter(_) => continue,
                 }
                 last_marker = marker;
+                last_sleep = false;
             }
             // register transfers are also what ordinary code is made of: only those executed
             // inside a transfer bracket (a marker directly followed by load(X) / load(Y), up to
